@@ -70,6 +70,13 @@ def main(argv):
             r2 = one(sid, "thorough")
             results.append(r2)
             print(json.dumps(r2)[:600], flush=True)
+    if argv:
+        # a partial re-run: keep the recorded results of the other seeds
+        try:
+            old = json.loads((VERIF / "seeded" / "regression.json").read_text())
+        except Exception:
+            old = []
+        results = sorted([r for r in old if r["id"] not in ids] + results, key=lambda r: (r["id"], r["tier"]))
     head = sh(f"git -C {REPO} rev-parse --short HEAD").stdout.strip()
     lines = [f"# Seeded changes re-run against /repo HEAD {head}", "",
              "| seed | property | tier | applies to HEAD | check exit | caught | concrete replay | summary |", "|---|---|---|---|---|---|---|---|"]
